@@ -305,6 +305,7 @@ Proof.
   assert (Hsc : size_check chk (base + i * bl) e bl = true).
   { unfold size_check. destruct chk; [|reflexivity]. cbn [negb orb].
     destruct (Hchk eq_refl) as [Hr Hle].
+    apply andb_true_iff; split; [apply Z.leb_le; lia|].
     apply Z.leb_le. unfold SIZE_T.
     rewrite !wrap_id' by (cbn; change (2 ^ 64) with 18446744073709551616 in *; lia).
     lia. }
@@ -380,6 +381,7 @@ Proof.
   pose proof (hdr_size_bounds S B HS HB) as Hh.
   pose proof (uns_range_64 S _ HS Hng). pose proof (uns_range_64 B _ HB Hbl).
   assert (0 <= g_ng g * g_bl g) by (apply Z.mul_nonneg_nonneg; lia).
+  apply andb_true_iff; split; [apply Z.leb_le; lia|].
   apply Z.leb_le. unfold SIZE_T.
   rewrite !wrap_id' by (cbn; change (2 ^ 64) with 18446744073709551616 in *; lia).
   lia.
@@ -688,7 +690,8 @@ Proof.
   assert (Hlb : (off + wbytes S <= length buf)%nat) by (unfold blen, wsize in *; lia).
   assert (Hsc : size_check chk p e (hdr_size S B) = true).
   { unfold size_check. destruct chk; [|reflexivity]. cbn [negb orb].
-    destruct (Hchk eq_refl) as [Hr Hle]. apply Z.leb_le. unfold SIZE_T, hdr_size in *.
+    destruct (Hchk eq_refl) as [Hr Hle]. apply andb_true_iff; split; [apply Z.leb_le; unfold hdr_size in *; lia|].
+    apply Z.leb_le. unfold SIZE_T, hdr_size in *.
     rewrite !wrap_id' by (cbn; change (2 ^ 64) with 18446744073709551616 in *; lia). lia. }
   assert (Hpa : padd p (wsize B) = p + wsize B) by (apply padd_id; cbn; lia).
   assert (Hwr : forall v, wr S buf (p + wsize B) v
@@ -758,6 +761,7 @@ Lemma size_check_ok chk b e need :
 Proof.
   intros Hn Hc. unfold size_check. destruct chk; [|reflexivity]. cbn [negb orb].
   destruct (Hc eq_refl) as (H1 & H2 & H3). change (2 ^ 63) with 9223372036854775808 in H3.
+  apply andb_true_iff; split; [apply Z.leb_le; lia|].
   apply Z.leb_le. unfold SIZE_T. rewrite !wrap_id' by (cbn; lia). lia.
 Qed.
 
